@@ -198,7 +198,7 @@ type env struct {
 }
 
 func (e *env) modelName(path string) string {
-	switch path {
+	switch filepath.Clean(path) {
 	case e.d.Path(certenv.Cert):
 		return "cert"
 	case e.d.Path(certenv.Key):
@@ -465,7 +465,14 @@ func runOne(t *testing.T, h history, c *mc.Chooser, o runOpts) (out mc.Outcome) 
 		certwatcher.Logger = log.New(formattingSink{}, "", 0)
 		certwatcher.VerboseLogs = len(h.String())%2 == 0
 
-		cw, err := certwatcher.New(disk.Path(certenv.Cert), disk.Path(certenv.Key))
+		// a third of the histories name their files in a legal spelling that is not the cleaned one ("dir/./tls.crt");
+		// fsnotify (the real one and the fake) reports events under the cleaned name
+		certArg, keyArg := disk.Path(certenv.Cert), disk.Path(certenv.Key)
+		if len(h.String())%3 == 1 {
+			certArg = filepath.Dir(certArg) + "/./" + filepath.Base(certArg)
+			keyArg = filepath.Dir(keyArg) + "//" + filepath.Base(keyArg)
+		}
+		cw, err := certwatcher.New(certArg, keyArg)
 		if err != nil || cw == nil {
 			viol(&out, "new-failed", "%s: certwatcher.New fails on a valid initial pair: %v", h, err)
 			out.Obs = "new-failed"
